@@ -1,4 +1,5 @@
 import RossModel.Lemmas.Memory
+import RossModel.Lemmas.MemoryTrace
 /-!
 # C19 — Receiver memory is bounded by the packet in flight and freed at boundaries
 
@@ -31,5 +32,35 @@ theorem C19_run_inv (st : RxSt) (rs : List (Res FErr Frame)) (hr : ∀ r ∈ rs,
 
 theorem C19_usartStep_phase (st : LinkSt) (it : ByteItem) (h : PhaseInv st.ph) : PhaseInv (usartStep st it).1.ph :=
   Ross.usartStep_phase st it h
+
+/-- C19 over **every** USART device history (any bytes, would-blocks and read errors in any order): after every
+`try_get_packet` call the body buffer is shorter than the length byte announced, the builder holds at most the
+announced number of frames, after a delivered packet or a reported reassembly error the receiver is in the state
+of a freshly created one, and no call panics. (`bytePollsSt` lists, per call, the result, the number of device
+items left unread and the state left; its projection to the results is `usartPolls`, `bytePollsSt_outs`.) -/
+theorem C19_usart_history (s : List ByteItem) : ∀ x ∈ bytePollsSt usartStep LinkSt.init s, CallOk x :=
+  Ross.usartPollsSt_ok s
+
+/-- the same for every serial-port history (bytes, timeouts, interrupts, end of file, I/O errors) -/
+theorem C19_serial_history (s : List ByteItem) : ∀ x ∈ serialPollsSt LinkSt.init s, CallOk x :=
+  Ross.serialPollsSt_ok s
+
+/-- the same for every CAN history of driver-constructible frames, would-blocks and overruns -/
+theorem C19_can_history (s : List CanItem) (hs : ∀ it ∈ s, canItemOk it) : ∀ x ∈ canPollsSt none s, CanCallOk x :=
+  Ross.canPollsSt_ok none s hs trivial
+
+/-- the numbers: body buffer below the announced length (at most 255), frames held at most the frames announced
+(at most 4096) -/
+theorem C19_bounds (st : LinkSt) (h : LinkInv st) :
+    (∀ len acc, st.ph = .body len acc → acc.length < len ∧ len ≤ 255) ∧
+    held st.rx ≤ announced st.rx ∧ announced st.rx ≤ 4096 :=
+  Ross.LinkInv.bounds st h
+
+/-- non-vacuity: a two-frame packet interrupted after its first frame leaves a builder holding one of two
+announced frames; the invariant is a real constraint on that state -/
+example :
+    (bytePollsSt usartStep LinkSt.init
+      ([0x00, 0x0e, 0x03, 0xe0, 0x01, 0x0b, 0x07, 0x08, 0x01, 0x0a, 0x4e, 0x33, 0x42, 0x56, 0xec, 0x3c].map .byte)).map
+      (fun x => (x.1, x.2.1, held x.2.2.rx, announced x.2.2.rx)) = [(.nothing, 0, 1, 2)] := by decide
 
 end Ross.Props
